@@ -69,7 +69,9 @@ def gen_conf(rng):
               ('HDOC', ['ATTR', 'FUNC_NAME', 'TAG', 'WARN'])]
     for grp, items in groups:
         for it in items:
-            if rng.random() < 0.45:
+            # (the colours of enum cells differ between most configurations: a formatter cached for a dead
+            # configuration and found again under a reused address is then visibly stale)
+            if rng.random() < (0.9 if it in ('NAME_GOOD', 'NAME_WARN') else 0.45):
                 d.setdefault(grp, {})[it] = rng.choice(COLS)
     return d
 
